@@ -602,7 +602,7 @@ def part_builtin(pc, binp, k, _):
         if o.get("panic"):
             why = "loading panicked: %s" % o["panic"]
         elif o["err"]:
-            raise vlib.Inconclusive("built-in document was not accepted (%s): %s" % (o["stage"], o["err"][:300]))
+            why = "valid document of real built-in components rejected (%s): %s" % (o["stage"], o["err"][:300])
         elif o["leaks"]:
             why = "secret text %r occurs in the effective configuration handed to extensions, at %s" % (
                 o["leaks"][0]["needle"], o["leaks"][0]["path"].lstrip(":"))
@@ -792,8 +792,10 @@ def run(c):
                 f.result()
             except vlib.Inconclusive as e:
                 errs.append(e)
-    if errs:
+    if errs and not c.violations:
         raise errs[0]
+    for e in errs:          # a part that could not finish does not mask violations observed by the other parts
+        c.log("part inconclusive (violations of other parts are reported): %s" % str(e)[:300])
     total = sum(pc.total for pc in parts)
     nontrivial = sum(pc.nontrivial for pc in parts)
     c.states += sum(pc.states for pc in parts)
